@@ -18,6 +18,7 @@ import WmModel.Props.C02Inflight
 #print axioms Wm.Handle.publish_effects
 #print axioms Wm.Handle.publish_at_most_once_in_order
 #print axioms Wm.Handle.no_publish_when_no_outputs
+#print axioms Wm.Handle.publish_call_then_ret
 #print axioms Wm.Handle.always_settled
 #print axioms Wm.Handle.self_settlement_wins
 #print axioms Wm.Handle.final_settlement
